@@ -283,7 +283,17 @@ def c04(tier, seed):
     _e2("strings", tier, "C04", r)
     for feats, m in _graph(tier, "C04"):
         r.absorb(m, ("graph-esm." if feats else "graph-cjs."))
-    r.assumptions = ["swc_ecma_parser 0.144 is the independent TypeScript grammar"]
+    if tier == "thorough":
+        # the `format` feature (dprint) rewrites every file before it is written
+        e3 = build_e3(("format",))
+        m = _only(run_sliced(e3, ["graph"], slices=32), "C04")
+        m["distinct"] = {f"format:{x}" for x in m["distinct"]}
+        r.absorb(m, "graph-format.")
+        r.extra["feature_configurations"] = ["default", "import-esm", "format"]
+    else:
+        r.extra["feature_configurations"] = ["default", "import-esm"]
+    r.assumptions = ["swc_ecma_parser 0.144 is the independent TypeScript grammar",
+                     "the no-serde-compat configuration is exercised in process (C10, C16), not through exported files"]
     return r
 
 
